@@ -15,7 +15,7 @@ import (
 func init() {
 	register(&Property{
 		ID:        "C19",
-		Technique: "publication-order typestate over the slow paths, must-lockset plus flag-guard classification of every plain field access, first-wins guard dominance, close-once classification",
+		Technique: "publication-order typestate over the slow paths, must-lockset plus flag-guard classification of every plain field access, first-wins guard dominance, close-once classification; interprocedural lock-pairing check",
 		Explanation: "The orderings and guards a linearisability argument for the one-shot primitives needs, decided on every path: " +
 			"(R1) publication order: in Signal.setSlow the error (and a fresh closed channel) are stored before the status word, which is stored before close(ch); in signalSlow the channel is stored before the status word; in Chan.doSlow the done flag is published after the initialiser ran; nothing is stored to the published fields after the flag; " +
 			"(R2) every plain write of Signal.err/ch and Chan.ch/closed happens under the object's mutex (initialisers passed to Chan.do run under it), and every plain read is under the mutex, after a critical section of it, or behind the atomic flag test with the matching bit; " +
